@@ -1,21 +1,26 @@
 #!/usr/bin/env python3
-"""After cherry-picking a builder's fix commits into /repo main, rewrite the commit ids of the
-`fixed:` lines in KNOWN_FINDINGS.txt (old worktree-branch ids -> ids on /repo main, matched by subject)."""
-import subprocess, sys, re
-branch = sys.argv[1]
-def log(rng):
-    out = subprocess.run(["git", "-C", "/repo", "log", "--format=%h\t%s", rng], capture_output=True, text=True).stdout
-    return [l.split("\t", 1) for l in out.strip().split("\n") if l]
-old = log("main.." + branch)
-new = {s: h for h, s in log("76596b2..main")}
+"""Rewrites the commit ids of the `fixed:` lines of KNOWN_FINDINGS.txt to the ids the commits have
+on /repo main now (matched by subject; the old objects are still in the object store after a
+cherry-pick or rebase)."""
+import subprocess, re
+def git(*a):
+    return subprocess.run(["git", "-C", "/repo"] + list(a), capture_output=True, text=True).stdout
+cur = {}
+for l in git("log", "--format=%h\t%s", "76596b2..main").strip().split("\n"):
+    h, s = l.split("\t", 1); cur.setdefault(s, h)
 p = "/verif/KNOWN_FINDINGS.txt"
-s = open(p).read()
-for h, subj in old:
-    if subj in new:
-        s2 = re.sub(r"\b%s[0-9a-f]*\b" % h[:7], new[subj], s)
-        if s2 != s:
-            print("remapped", h, "->", new[subj], subj[:70])
-        s = s2
-    else:
-        print("NOT ON MAIN:", h, subj)
-open(p, "w").write(s)
+out = []
+for line in open(p):
+    m = re.match(r"(fixed:\s+property=\S+\s+)([0-9a-f]{7,40})(\b.*)", line, re.S)
+    if m:
+        subj = git("log", "-1", "--format=%s", m.group(2)).strip()
+        if subj in cur:
+            if cur[subj] != m.group(2)[:len(cur[subj])]:
+                print("remapped", m.group(2), "->", cur[subj], subj[:60])
+            line = m.group(1) + cur[subj] + m.group(3)
+        else:
+            print("NOT ON MAIN:", m.group(2), subj[:80] or "(unknown object)")
+    elif line.startswith("fixed:"):
+        print("NO COMMIT ID:", line[:100].strip())
+    out.append(line)
+open(p, "w").writelines(out)
